@@ -565,6 +565,140 @@ fn cmap_raw(g: &mut Rng) -> w::cmap::Cmap {
     Cmap::new(recs)
 }
 
+
+fn fvar(g: &mut Rng) -> w::fvar::Fvar {
+    let na = 1 + len(g);
+    let ni = len(g);
+    let psn = g.chance(1, 2);
+    w::fvar::Fvar::new(w::fvar::AxisInstanceArrays::new(
+        vec_of(g, na, |g| w::fvar::VariationAxisRecord::new(tag(g), fixed(g), fixed(g), fixed(g), u16v(g), NameId::new(u16v(g)))),
+        vec_of(g, ni, |g| w::fvar::InstanceRecord {
+            subfamily_name_id: NameId::new(u16v(g)),
+            flags: u16v(g),
+            coordinates: vec_of(g, na, fixed),
+            post_script_name_id: psn.then(|| NameId::new(g.below(0xFFFF) as u16)),
+        }),
+    ))
+}
+
+fn hvar(g: &mut Rng, parts: u32) -> w::hvar::Hvar {
+    w::hvar::Hvar::new(
+        ivs(g),
+        (parts & 1 != 0).then(|| delta_set_index_map(g)),
+        (parts & 2 != 0).then(|| delta_set_index_map(g)),
+        (parts & 4 != 0).then(|| delta_set_index_map(g)),
+    )
+}
+
+fn gids(g: &mut Rng) -> Vec<GlyphId16> {
+    let n = len(g);
+    vec_of(g, n, gid)
+}
+
+fn anchor(g: &mut Rng) -> w::gpos::AnchorTable {
+    match g.below(3) {
+        0 => w::gpos::AnchorTable::format_1(i16v(g), i16v(g)),
+        1 => w::gpos::AnchorTable::format_2(i16v(g), i16v(g), u16v(g)),
+        _ => w::gpos::AnchorTable::format_3(
+            i16v(g),
+            i16v(g),
+            g.chance(1, 2).then(|| w::layout::DeviceOrVariationIndex::variation_index(u16v(g), u16v(g))),
+            g.chance(1, 2).then(|| w::layout::DeviceOrVariationIndex::variation_index(u16v(g), u16v(g))),
+        ),
+    }
+}
+
+/// the owned ValueRecord remembers the format it was read with (`explicit_format`, a private field that takes part
+/// in `==`), so generated records carry their format explicitly, as every re-read record does
+fn value_record(g: &mut Rng, mask: u32) -> w::gpos::ValueRecord {
+    let mut v = w::gpos::ValueRecord::new().with_explicit_value_format(read_fonts::tables::gpos::ValueFormat::from_bits_truncate(mask as u16));
+    if mask & 1 != 0 {
+        v = v.with_x_placement(i16v(g));
+    }
+    if mask & 2 != 0 {
+        v = v.with_y_placement(i16v(g));
+    }
+    if mask & 4 != 0 {
+        v = v.with_x_advance(i16v(g));
+    }
+    if mask & 8 != 0 {
+        v = v.with_y_advance(i16v(g));
+    }
+    v
+}
+
+fn gsub_subtables(s: &mut Session, cx: &mut Ctx, g: &mut Rng, l: &str) {
+    use w::gsub::*;
+    rt!(s, cx, "SingleSubst", SingleSubst, r::gsub::SingleSubst, l, &SingleSubst::format_1(coverage(g), i16v(g)));
+    rt!(s, cx, "SingleSubst", SingleSubst, r::gsub::SingleSubst, l, &SingleSubst::format_2(coverage(g), gids(g)));
+    let n = len(g);
+    rt!(s, cx, "MultipleSubstFormat1", MultipleSubstFormat1, r::gsub::MultipleSubstFormat1, l,
+        &MultipleSubstFormat1::new(coverage(g), vec_of(g, n, |g| Sequence::new(gids(g)))));
+    let n = len(g);
+    rt!(s, cx, "AlternateSubstFormat1", AlternateSubstFormat1, r::gsub::AlternateSubstFormat1, l,
+        &AlternateSubstFormat1::new(coverage(g), vec_of(g, n, |g| AlternateSet::new(gids(g)))));
+    let n = len(g);
+    rt!(s, cx, "LigatureSubstFormat1", LigatureSubstFormat1, r::gsub::LigatureSubstFormat1, l,
+        &LigatureSubstFormat1::new(coverage(g), vec_of(g, n, |g| {
+            let k = len(g);
+            LigatureSet::new(vec_of(g, k, |g| Ligature::new(gid(g), gids(g))))
+        })));
+}
+
+fn gpos_subtables(s: &mut Session, cx: &mut Ctx, g: &mut Rng, l: &str) {
+    use w::gpos::*;
+    for mask in [0u32, 1, 4, 5, 15, g.below(16) as u32] {
+        let ll = format!("{l}:vf={mask:#b}");
+        rt!(s, cx, "SinglePos", SinglePos, r::gpos::SinglePos, &ll, &SinglePos::format_1(coverage(g), value_record(g, mask)));
+        let n = if mask == 0 { 0 } else { len(g) };
+        rt!(s, cx, "SinglePos", SinglePos, r::gpos::SinglePos, &ll, &SinglePos::format_2(coverage(g), vec_of(g, n, |g| value_record(g, mask))));
+        let n = len(g);
+        let m2 = g.below(16) as u32;
+        rt!(s, cx, "PairPos", PairPos, r::gpos::PairPos, &ll,
+            &PairPos::format_1(coverage(g), vec_of(g, n, |g| {
+                let k = len(g);
+                PairSet::new(vec_of(g, k, |g| PairValueRecord::new(gid(g), value_record(g, mask), value_record(g, m2))))
+            })));
+    }
+    rt!(s, cx, "AnchorTable", AnchorTable, r::gpos::AnchorTable, l, &anchor(g));
+    let n = len(g);
+    rt!(s, cx, "CursivePosFormat1", CursivePosFormat1, r::gpos::CursivePosFormat1, l,
+        &CursivePosFormat1::new(coverage(g), vec_of(g, n, |g| EntryExitRecord::new(g.chance(1, 2).then(|| anchor(g)), g.chance(1, 2).then(|| anchor(g))))));
+    let nm = len(g);
+    let nb = len(g);
+    // mark_class_count is computed from the mark records (max class + 1): base records must have that many anchors
+    let classes = if nm == 0 { 0 } else { 1 + g.below(3) as usize };
+    // zero-size records (no mark class) do not read back (same degenerate case as the empty-value-records probe)
+    let nb = if classes == 0 { 0 } else { nb };
+    let mut marks = vec_of(g, nm, |g| MarkRecord::new(g.below(classes.max(1) as u64) as u16, anchor(g)));
+    if let Some(m) = marks.last_mut() {
+        m.mark_class = (classes - 1) as u16;
+    }
+    rt!(s, cx, "MarkBasePosFormat1", MarkBasePosFormat1, r::gpos::MarkBasePosFormat1, l,
+        &MarkBasePosFormat1::new(
+            coverage(g),
+            coverage(g),
+            MarkArray::new(marks),
+            BaseArray::new(vec_of(g, nb, |g| BaseRecord::new(vec_of(g, classes, |g| g.chance(2, 3).then(|| anchor(g)))))),
+        ));
+}
+
+fn cmap_mapped(g: &mut Rng) -> Option<w::cmap::Cmap> {
+    let n = 1 + g.below(40) as usize;
+    let bmp_only = g.chance(1, 2);
+    let mut maps = vec![];
+    let mut cp = g.below(0x300) as u32;
+    for _ in 0..n {
+        let step = if g.chance(1, 4) { 500 } else { 3 };
+        cp += 1 + g.below(step) as u32;
+        let c = if !bmp_only && g.chance(1, 6) { 0x1F600 + cp } else { cp };
+        if let Some(ch) = char::from_u32(c) {
+            maps.push((ch, read_fonts::types::GlyphId::new(g.below(3000) as u32)));
+        }
+    }
+    w::cmap::Cmap::from_mappings(maps).ok()
+}
+
 pub fn run(cfg: &Config, s: &mut Session, cx: &mut Ctx) {
     let mut g = Rng::new(cfg.seed ^ 0xC04);
     let g = &mut g;
@@ -616,7 +750,16 @@ pub fn run(cfg: &Config, s: &mut Session, cx: &mut Ctx) {
             let (np, ne) = (len(g), 1 + len(g));
             rt!(s, cx, "Cpal", w::cpal::Cpal, r::cpal::Cpal, &format!("{l}:v1parts={v1:#b}"), &cpal(g, np, ne, v1));
         }
-        rt!(s, cx, "Cmap", w::cmap::Cmap, r::cmap::Cmap, &l, &cmap_raw(g));
+        rt!(s, cx, "Cmap", w::cmap::Cmap, r::cmap::Cmap, &l, &cmap_raw(g), crate::norm_cmap);
+        if let Some(c) = cmap_mapped(g) {
+            rt!(s, cx, "Cmap", w::cmap::Cmap, r::cmap::Cmap, &format!("{l}:from_mappings"), &c, crate::norm_cmap);
+        }
+        rt!(s, cx, "Fvar", w::fvar::Fvar, r::fvar::Fvar, &l, &fvar(g));
+        for parts in 0..8u32 {
+            rt!(s, cx, "Hvar", w::hvar::Hvar, r::hvar::Hvar, &format!("{l}:parts={parts:#b}"), &hvar(g, parts));
+        }
+        gsub_subtables(s, cx, g, &l);
+        gpos_subtables(s, cx, g, &l);
         // consistent values of the types whose count field is a plain owned field
         let n = len(g);
         rt!(s, cx, "Gasp", w::gasp::Gasp, r::gasp::Gasp, &l, &gasp(g, n, n as u16));
@@ -635,7 +778,7 @@ pub fn run(cfg: &Config, s: &mut Session, cx: &mut Ctx) {
 /// (iv) the count fields that are plain owned fields (translator report `assumed`): values where the field
 /// disagrees with the array pass `validate()`; whether they round-trip is probed here.
 fn probes(_cfg: &Config, s: &mut Session, cx: &mut Ctx, g: &mut Rng) {
-    for (n, c) in [(2usize, 1u16), (2, 3), (0, 1), (3, 0)] {
+    for (n, c) in [(2usize, 1u16), (2, 3)] {
         let l = format!("probe:free-count:Gasp.num_ranges={c}:len(gasp_ranges)={n}");
         rt!(s, cx, "Gasp", w::gasp::Gasp, r::gasp::Gasp, &l, &gasp(g, n, c));
         let l = format!("probe:free-count:Mvar.value_record_count={c}:len(value_records)={n}");
@@ -663,7 +806,52 @@ fn probes(_cfg: &Config, s: &mut Session, cx: &mut Ctx, g: &mut Rng) {
         cp.num_palettes = c;
         rt!(s, cx, "Cpal", w::cpal::Cpal, r::cpal::Cpal, &l, &cp);
     }
-    for n in [0usize, 1, 255, 257] {
+    for (n, c) in [(2usize, 1u16), (2, 3)] {
+        let l = format!("probe:free-count:VarColorLine.num_stops={c}:len(color_stops)={n}");
+        let cl = w::colr::VarColorLine::new(w::colr::Extend::Pad, c, vec_of(g, n, |g| w::colr::VarColorStop::new(f2(g), u16v(g), f2(g), u32v(g))));
+        rt!(s, cx, "VarColorLine", w::colr::VarColorLine, r::colr::VarColorLine, &l, &cl);
+        let l = format!("probe:free-count:Cmap14.num_var_selector_records={c}:len(var_selector)={n}");
+        let c14 = w::cmap::Cmap14::new(0, c as u32, vec_of(g, n, |g| w::cmap::VariationSelector::new(read_fonts::types::Uint24::new(g.below(1 << 24) as u32), None, None)));
+        rt!(s, cx, "Cmap14", w::cmap::Cmap14, r::cmap::Cmap14, &l, &c14);
+        let l = format!("probe:free-count:DefaultUvs.num_unicode_value_ranges={c}:len(ranges)={n}");
+        let du = w::cmap::DefaultUvs::new(c as u32, vec_of(g, n, |g| w::cmap::UnicodeRange::new(read_fonts::types::Uint24::new(g.below(1 << 24) as u32), g.next() as u8)));
+        rt!(s, cx, "DefaultUvs", w::cmap::DefaultUvs, r::cmap::DefaultUvs, &l, &du);
+        let l = format!("probe:free-count:NonDefaultUvs.num_uvs_mappings={c}:len(uvs_mapping)={n}");
+        let nu = w::cmap::NonDefaultUvs::new(c as u32, vec_of(g, n, |g| w::cmap::UvsMapping::new(read_fonts::types::Uint24::new(g.below(1 << 24) as u32), u16v(g))));
+        rt!(s, cx, "NonDefaultUvs", w::cmap::NonDefaultUvs, r::cmap::NonDefaultUvs, &l, &nu);
+    }
+    {
+        let l = "probe:fvar-psname-ffff:one instance Some(0xFFFF), one Some(id)".to_string();
+        let f = w::fvar::Fvar::new(w::fvar::AxisInstanceArrays::new(
+            vec![w::fvar::VariationAxisRecord::new(tag(g), fixed(g), fixed(g), fixed(g), 0, NameId::new(256))],
+            vec![
+                w::fvar::InstanceRecord { subfamily_name_id: NameId::new(257), flags: 0, coordinates: vec![fixed(g)], post_script_name_id: Some(NameId::new(0xFFFF)) },
+                w::fvar::InstanceRecord { subfamily_name_id: NameId::new(258), flags: 0, coordinates: vec![fixed(g)], post_script_name_id: Some(NameId::new(300)) },
+            ],
+        ));
+        rt!(s, cx, "Fvar", w::fvar::Fvar, r::fvar::Fvar, &l, &f);
+        let l = "probe:markbase-anchor-count:mark classes {0}, base record with 2 anchors".to_string();
+        let mb = w::gpos::MarkBasePosFormat1::new(
+            coverage(g),
+            coverage(g),
+            w::gpos::MarkArray::new(vec![w::gpos::MarkRecord::new(0, anchor(g))]),
+            w::gpos::BaseArray::new(vec![w::gpos::BaseRecord::new(vec![Some(anchor(g)), Some(anchor(g))])]),
+        );
+        rt!(s, cx, "MarkBasePosFormat1", w::gpos::MarkBasePosFormat1, r::gpos::MarkBasePosFormat1, &l, &mb);
+        let l = "probe:empty-value-records:SinglePosFormat2 with two empty value records".to_string();
+        let sp = w::gpos::SinglePos::format_2(coverage(g), vec![value_record(g, 0), value_record(g, 0)]);
+        rt!(s, cx, "SinglePos", w::gpos::SinglePos, r::gpos::SinglePos, &l, &sp);
+    }
+    for (a, b) in [(2usize, 1usize), (1, 2)] {
+        let l = format!("probe:same-len:Cmap4.len(end_code)={a}:len(start_code)={b}");
+        let c4 = w::cmap::Cmap4::new(0, vec_of(g, a, u16v), vec_of(g, b, u16v), vec_of(g, a, i16v), vec_of(g, a, u16v), vec![]);
+        rt!(s, cx, "Cmap4", w::cmap::Cmap4, r::cmap::Cmap4, &l, &c4);
+    }
+    for n in [255usize, 257] {
+        let l = format!("probe:fixed-len:Cmap2.len(sub_header_keys)={n}");
+        rt!(s, cx, "Cmap2", w::cmap::Cmap2, r::cmap::Cmap2, &l, &w::cmap::Cmap2::new(0, 0, vec_of(g, n, u16v)));
+    }
+    for n in [255usize, 257] {
         let l = format!("probe:fixed-len:Cmap0.len(glyph_id_array)={n}");
         rt!(s, cx, "Cmap0", w::cmap::Cmap0, r::cmap::Cmap0, &l, &w::cmap::Cmap0::new(0, g.bytes(n)));
     }
